@@ -30,7 +30,7 @@ struct C07 : Property
 	{
 		return {"put.beyond_end_gap_fill", "put.overwrite_releases_old", "put.overwrite_gap_slot", "insert.shift", "insert.at_or_beyond_end", "del.range_with_gaps", "del.out_of_range_refused",
 		        "del.count_overflow_refused", "index.size_max_adjacent_refused", "index.capacity_refused", "shrink.then_grow", "sort.with_nulls", "bsearch.hit", "bsearch.miss",
-		        "fault.growth_failed_unchanged", "capacity0.first_add"};
+		        "fault.growth_failed_unchanged", "capacity0.first_add", "put.same_element_again"};
 	}
 
 	Plan generate(Rng &r, Tier, uint64_t index) override
@@ -42,7 +42,7 @@ struct C07 : Property
 		p.cfg["cap"] = r.chance(1, 6) ? (int64_t)r.range(0, 70) : caps[r.below(6)];
 		int nops = (int)r.range(3, 45);
 		int64_t len = 0; // rough prediction to aim indices
-		std::vector<std::string> kinds = {"add", "put", "insert", "del", "shrink", "sort", "bsearch", "get"};
+		std::vector<std::string> kinds = {"add", "put", "insert", "del", "shrink", "sort", "bsearch", "get", "reput"};
 		std::vector<std::string> en;
 		for (auto &k : kinds)
 			if (r.chance(3, 4))
@@ -100,7 +100,7 @@ struct C07 : Property
 				op.a = {(int64_t)r.pick(std::vector<int>{0, 0, 1, 3, 40})};
 			else if (op.kind == "bsearch")
 				op.a = {(int64_t)r.range(0, 60)};
-			else if (op.kind == "get")
+			else if (op.kind == "get" || op.kind == "reput")
 				op.a = {index_near()};
 			if (faulted && r.chance(1, 4))
 			{
@@ -404,6 +404,25 @@ struct C07 : Property
 					ctx.probe(hit ? "bsearch.hit" : "bsearch.miss");
 					LIBV(json_object_put(key));
 					rel = hit ? "hit" : "miss";
+				}
+			}
+			else if (op.kind == "reput")
+			{
+				// store the element that is already there once more (with a reference of its own, as the API requires):
+				// the slot's old reference is released, the new one taken - nothing is destroyed, nothing leaks
+				size_t idx = len ? (size_t)(op.arg(0) < 0 ? -op.arg(0) : op.arg(0)) % len : 0;
+				rel = "same-element";
+				if (len && model[idx].o)
+				{
+					struct json_object *e = LIB(json_object_get(model[idx].o));
+					rc = LIB(json_object_array_put_idx(arr, idx, e));
+					if (rc != 0)
+					{
+						if (!(g_alloc.fired || g_alloc.cap_refused))
+							ctx.fail("C07:spurious-failure", "op %zu: put_idx of the element already stored at %zu failed", oi, idx);
+						LIBV(json_object_put(e));
+					}
+					ctx.probe("put.same_element_again");
 				}
 			}
 			else if (op.kind == "get")
